@@ -84,6 +84,32 @@ Definition client_init (fl : flags) (l : list client) (i : nat) (shared : bool) 
       else l
   end.
 
+(* ---------------------------------------------------------------- builds without thread support
+   Without LIBVNCSERVER_HAVE_LIBPTHREAD the client iterator does NOT skip a client that has been
+   closed (sock = -1) but not yet reaped by rfbProcessEvents: if its state is still RFB_NORMAL the
+   dontDisconnect loop counts it.  [stale j] = client j is such a closed, unreaped client.  (Closing it
+   once more in the other branch changes nothing.)  This variant is not executed by the correspondence
+   run (the library is built with threads); it is here to state what still holds. *)
+Fixpoint other_normal_nt (stale : nat -> bool) (from i : nat) (l : list client) : bool :=
+  match l with
+  | [] => false
+  | c :: t => (negb (Nat.eqb from i) && (k_open c || stale from) && is_normal c) || other_normal_nt stale (S from) i t
+  end.
+
+Definition client_init_nt (stale : nat -> bool) (fl : flags) (l : list client) (i : nat) (shared : bool) : list client :=
+  match nth_error l i with
+  | None => l
+  | Some c =>
+      if k_open c && match k_phase c with PInit => true | _ => false end then
+        let l1 := update l i (fun c => set_phase c PNormal) in
+        if exclusive fl (k_rev c) shared then
+          if f_dontdisc fl then
+            (if other_normal_nt stale 0 i l1 then update l1 i close else l1)
+          else close_other_normal 0 i l1
+        else l1
+      else l
+  end.
+
 (* ---------------------------------------------------------------- the event loop
    Events (a security-type byte, a ClientInit byte, a hang-up) may be pending on several clients
    when rfbProcessEvents runs.  One pass (rfbCheckFds) walks the client list from its head, i.e.
